@@ -9,12 +9,13 @@ import common as C          # noqa: E402
 import gen_cases as G       # noqa: E402
 
 TRUSTED_COMMON = [
-    "Coq 8.16.1 kernel (coqc; vm_compute used for finite enumerations and witnesses; native_compute not used)",
+    "Coq 8.16.1 kernel (coqc; vm_compute used for finite enumerations and witnesses; native_compute not used); thorough tier: coqchk -o on the closure",
     "axioms: none declared; every property theorem must print 'Closed under the global context'",
-    "translator tools/gen_tables.py (enum tables, constants, comparison operators, masks read from /repo/src on every run)",
-    "hand-written Gallina model coq/Model/*.v of src/decode, src/encode and the validated value types",
+    "translator tools/gen_tables.py + tools/gen_formats.py (enum tables, constants, comparison operators, masks, per-type RDATA format tables, source audit re-read from /repo/src on every run; baseline in tools/gen_baseline)",
+    "dpdgraph plugin (dependency cone of each theorem on generated definitions)",
+    "hand-written Gallina model coq/Model/*.v of src/decode, src/encode and the validated value types; specification files coq/Spec/{Iana,Names,Wire,Render,USize}.v",
     "extraction: ExtrOcamlBasic only (bool, option, unit, list, prod, sumbool, sumor); no Extract Constant; N/positive/nat/string stay extracted inductives",
-    "correspondence check: Rust harness (harness/), OCaml driver (ocaml/driver.ml), canonical printers, Python generators, tools/check.py",
+    "correspondence check: Rust harness (harness/), OCaml driver (ocaml/driver.ml), canonical printers, Python generators and reference renderer, tools/refdec.py (oracle), tools/check.py",
     "rustc/cargo debug profile with overflow checks; Rust's own semantics of integers, slices, Vec, String, HashMap, BTreeSet, bytes::Bytes",
 ]
 
